@@ -62,6 +62,32 @@ Theorem C13_no_other_account_credited :
 Proof. exact others_untouched. Qed.
 Print Assumptions C13_no_other_account_credited.
 
+(* whatever accounts the three receivers are — also when two of them are the same account, e.g. the storage
+   stipend routed to the developer-grants pool — every account's balance moves by exactly the shares addressed to
+   it, and the mint module by the emission minus the three shares *)
+Theorem C13_every_account_receives_the_shares_addressed_to_it :
+  forall acc p s y, valid_params p -> ok_state acc s ->
+  let r := block_mint acc p s in
+  let e := r_emission r in
+  bal (m_bank (r_state r)) y
+  = bal (m_bank s) y
+    + ind (N.eqb y (a_mod acc)) (e - (staker_ratio p * e) / 100 - (dev_ratio p * e) / 100 - (prov_ratio p * e) / 100)
+    + ind (N.eqb y (a_fee acc)) ((staker_ratio p * e) / 100)
+    + ind (N.eqb y (a_dev acc)) ((dev_ratio p * e) / 100)
+    + ind (N.eqb y (a_stip acc)) ((prov_ratio p * e) / 100).
+Proof. exact every_account_gets_its_shares. Qed.
+Print Assumptions C13_every_account_receives_the_shares_addressed_to_it.
+
+Theorem C13_split_when_stipend_is_the_developer_pool :
+  forall acc p s, valid_params p -> ok_state acc s ->
+  a_stip acc = a_dev acc -> a_dev acc <> a_fee acc -> a_dev acc <> a_mod acc -> a_fee acc <> a_mod acc ->
+  let r := block_mint acc p s in
+  let e := r_emission r in
+  bal (m_bank (r_state r)) (a_dev acc) = bal (m_bank s) (a_dev acc) + (dev_ratio p * e) / 100 + (prov_ratio p * e) / 100 /\
+  bal (m_bank (r_state r)) (a_fee acc) = bal (m_bank s) (a_fee acc) + (staker_ratio p * e) / 100.
+Proof. exact split_when_stipend_is_dev_pool. Qed.
+Print Assumptions C13_split_when_stipend_is_the_developer_pool.
+
 (* non-vacuity: the default parameters are valid and three blocks from an empty state run *)
 Example C13_default_run :
   let p := {| tokens_per_block := 4200000; mint_decrease := 6; staker_ratio := 80;
